@@ -1,8 +1,12 @@
 (* C16 — Chunk normalization produces valid layouts within the byte limit.
    Statements only; proofs in theories/NormChunksFacts.v.  The float k-th root `size`
    of auto_chunks is an oracle argument (`sizes`): every theorem holds for all oracle
-   values, the byte-limit theorems under the explicit root hypothesis. *)
+   values, the byte-limit theorems under the explicit root hypothesis.
+   Second part (theorems C16_prev_...): the `previous_chunks` branch of auto_chunks (model: theories/AutoPrev.v; proofs:
+   AutoPrevFacts / AutoPrevTerm / AutoPrevTerm2 / AutoPrevBound).  There the floats `proposed` and
+   `max_chunk_size` are the oracle [orc round axis]; medians, multiplier and round_to are exact rationals. *)
 From DA Require Import PyBase NormChunks NormChunksFacts.
+From DA Require Import AutoPrev AutoPrevFacts AutoPrevTerm AutoPrevTerm2 AutoPrevBound AutoPrevSafe.
 Open Scope Z_scope.
 
 (* every accepted specification yields one non-empty tuple per axis of non-negative
@@ -79,3 +83,172 @@ Print Assumptions C16_zero_only_on_empty_axes.
 Print Assumptions C16_explicit_zero_chunk_refuted.
 Print Assumptions C16_auto_limit.
 Print Assumptions C16_auto_fuel_adequate.
+
+(* ====================================================================== *)
+(* normalize_chunks(..., previous_chunks=...) / x.rechunk('auto'): model AutoPrev.normalize_chunks_prev *)
+
+(* (a) every accepted result is a layout of the shape — for ALL oracle values and all fuel *)
+Theorem C16_prev_valid_layout : forall orc fuel limit itemsize specs shape prev cs,
+  Forall (fun n => 0 <= n) shape ->
+  normalize_chunks_prev orc fuel limit itemsize specs shape prev = POk cs ->
+  layout_ok cs shape = true.
+Proof. exact normalize_prev_valid_layout. Qed.
+
+(* (a) 'auto' axes of positive length get positive chunks (zero-size chunks only on zero-length axes) *)
+Theorem C16_prev_auto_axes_positive : forall orc fuel limit itemsize specs shape prev cs,
+  Forall (fun n => 0 <= n) shape ->
+  normalize_chunks_prev orc fuel limit itemsize specs shape prev = POk cs ->
+  forall i n l, nth_error specs i = Some AAuto -> nth_error shape i = Some n -> 0 < n ->
+    nth_error cs i = Some l -> Forall (fun c => 0 < c) l.
+Proof. exact normalize_prev_auto_positive. Qed.
+
+(* (a) the other axes are converted exactly as without previous_chunks *)
+Theorem C16_prev_fixed_axes_untouched : forall orc fuel limit itemsize specs shape prev cs,
+  Forall (fun n => 0 <= n) shape ->
+  normalize_chunks_prev orc fuel limit itemsize specs shape prev = POk cs ->
+  forall i sp n, nth_error specs i = Some sp -> sp <> AAuto -> nth_error shape i = Some n ->
+    exists l, nth_error cs i = Some l /\ convert_axis (subst_full sp n) n = Ok l.
+Proof. exact normalize_prev_fixed_untouched. Qed.
+
+Theorem C16_prev_no_auto_ignores_previous : forall orc fuel limit itemsize specs shape prev sizes,
+  length specs = length shape ->
+  count_autos (subst_all specs shape) = 0 ->
+  normalize_chunks_prev orc fuel limit itemsize specs shape prev =
+  match normalize_chunks sizes specs shape with Ok cs => POk cs | Err e => PErr e end.
+Proof. exact normalize_prev_no_auto. Qed.
+
+(* (b) the byte bound this branch guarantees: T * max(1, limit) with T = tn/td (the configured tolerance is
+   5/4), PROVIDED the proposals of every pass are numbers and the LAST pass that starts with `autos` non-empty
+   is accurate (AutoPrev.acc_round: prod(max(1, int(proposed), int(max_chunk_size))) <= T * target, where
+   target = limit / (itemsize * largest_block * prod(settled median_chunks entries)) is the value prod(proposed)
+   has mathematically, and the settled entries multiply to >= 1).  The full-strength statement without the
+   accuracy hypothesis is false already because the oracle is arbitrary; with real floats it fails when the
+   settled entries multiply to < 1: see the _refuted theorem below. *)
+Theorem C16_prev_limit : forall tn td orc fuel limit itemsize specs shape prev cs,
+  0 < td -> 0 <= tn -> 0 <= itemsize -> Forall (fun n => 0 <= n) shape ->
+  normalize_chunks_prev orc fuel limit itemsize specs shape prev = POk cs ->
+  prev_acc tn td orc fuel limit itemsize specs shape prev = true ->
+  itemsize * max_block cs * td <= tn * Z.max 1 limit.
+Proof. exact normalize_prev_limit. Qed.
+
+(* (b, refuted) valid previous chunks with zero-size chunks (median 1/2): blocks of 2 x limit although the
+   fixed axes fit — normalize_chunks(('auto','auto'), (1,100), limit=10, dtype='u1',
+   previous_chunks=((0,1),(10,)*10)) = ((1,), (20,)*5)  [replayed on the implementation: finding C16-P1] *)
+Theorem C16_prev_limit_zero_size_previous_chunks_refuted :
+  exists orc fuel limit itemsize specs shape prev cs,
+    layout_ok prev shape = true /\
+    normalize_chunks_prev orc fuel limit itemsize specs shape prev = POk cs /\
+    itemsize * largest_fixed specs <= limit /\
+    5 * limit < 4 * (itemsize * max_block cs).
+Proof. exact normalize_prev_limit_zero_prev_refuted. Qed.
+
+(* (c) TERMINATION of `while multiplier_remaining:`.
+   - multiplier >= 1 initially (prev_start gives reduce = false): #autos + 1 passes suffice for ALL oracle values;
+   - multiplier < 1 initially (reduce = true: result IS median_chunks and the loop runs until the recomputed
+     multiplier stops changing): (#autos + 1) * (sum of the 'auto' axis lengths + 3) passes suffice PROVIDED every
+     executed pass is sane (AutoPrev.round_sane: the proposals are numbers; proposed >= the entry it was
+     computed from when multiplier >= 1; prod(int(proposed)) <= target);
+   - the loop is not reached (no 'auto', error before it): trivially. *)
+Theorem C16_prev_terminates : forall orc fuel limit itemsize specs shape prev,
+  match prev_start limit itemsize specs shape prev with
+  | None => True
+  | Some (false, cs, st0) => (n_autos (ls_axes st0) < fuel)%nat
+  | Some (true, cs, st0) => prev_sane orc fuel limit itemsize specs shape prev = true /\
+                            reduce_fuel_bound cs (ls_axes st0) <= Z.of_nat fuel
+  end ->
+  normalize_chunks_prev orc fuel limit itemsize specs shape prev <> PFuel.
+Proof. exact normalize_prev_terminates. Qed.
+
+Theorem C16_prev_terminates_growing : forall orc fuel limit itemsize specs shape prev cs st0,
+  prev_start limit itemsize specs shape prev = Some (false, cs, st0) ->
+  (length (filter is_auto (subst_all specs shape)) < fuel)%nat ->
+  normalize_chunks_prev orc fuel limit itemsize specs shape prev <> PFuel.
+Proof. exact normalize_prev_grow_terminates. Qed.
+
+(* (c) why sanity is needed: in the shrinking case, with NaN proposals and an axis still in `autos`, NO pass
+   ends the loop: the axis stays in `autos`, its dict entry becomes NaN, the recomputed multiplier is NaN and
+   `multiplier != last_multiplier` holds for NaN — the state stops changing but the exit test never fires *)
+Theorem C16_prev_nan_never_exits : forall fuel limit itemsize cs orc r st,
+  (forall r' a, orc r' a = (FNan, FNan)) ->
+  length cs = length (ls_axes st) ->
+  (0 < n_autos (ls_axes st))%nat ->
+  forall st', prev_loop fuel true limit itemsize cs orc r st <> LDone st'.
+Proof. exact prev_loop_nan_never_exits. Qed.
+
+(* (c, refuted) full-strength termination is FALSE: the known hang (finding C14-F26 / C16-P2),
+   normalize_chunks((-2,'auto','auto'), (5,5,2), dtype='i4', previous_chunks=((1,)*5,(5,),(2,))):
+   largest_block = -2 < 0, so multiplier < 0 and multiplier ** (1/2) is NaN (the oracle the implementation
+   produces): the model runs out of ANY fuel *)
+Theorem C16_prev_negative_entry_never_returns_refuted :
+  exists orc limit itemsize specs shape prev,
+    forall fuel, normalize_chunks_prev orc fuel limit itemsize specs shape prev = PFuel.
+Proof.
+  exists (fun _ _ => (FNan, FNan)), 134217728, 4, [AInt (-2); AAuto; AAuto], [5; 5; 2], [[1; 1; 1; 1; 1]; [5]; [2]].
+  exact normalize_prev_negative_entry_never_returns.
+Qed.
+
+(* (c) WHICH INPUTS ARE SAFE.  On a well-formed input — itemsize > 0, the product of the explicit entries
+   (largest_block) positive, shape >= 0, previous chunks >= 0 — the exact multiplier at the start of EVERY pass is
+   a positive number, for all numeric oracle values.  The implementation's proposals are
+   median_chunks[a] * multiplier ** (1/n): NaN only for a negative multiplier with n >= 2.  So exactly the inputs
+   with a negative largest_block (an odd number of negative explicit entries) or negative previous chunks, next to
+   two or more 'auto' axes, can hang; all others cannot produce the NaN of C16_prev_nan_never_exits. *)
+Theorem C16_prev_safe_inputs_multiplier_positive : forall orc fuel limit itemsize specs shape prev,
+  0 < itemsize -> 0 < largest_fixed (subst_all specs shape) ->
+  Forall (fun n => 0 <= n) shape ->
+  (forall pvs, conv_prev shape prev = Ok pvs -> Forall (Forall (fun c => 0 <= c)) pvs) ->
+  (forall r a, fwf (fst (orc r a)) && fwf (snd (orc r a)) = true) ->
+  Forall mult_pos (prev_mults orc fuel limit itemsize specs shape prev).
+Proof. exact prev_mults_positive. Qed.
+
+(* Examples: the hypotheses are satisfiable on real runs (oracle values = the floats of the implementation) *)
+(* shrinking case, two passes: normalize_chunks(('auto','auto'), (12,12), limit=8, dtype='u1',
+   previous_chunks=((4,4,4),(6,6))) = ((2,)*6, (3,)*4); proposals 2.309.., 3.464.. in both passes *)
+Definition ex_shrink_oracle : nat -> nat -> fval * fval :=
+  orc_of_table
+    [[(0%nat, (FQ 1300077228592327 562949953421312, FQ 5814122118263953 2251799813685248));
+      (1%nat, (FQ 3900231685776981 1125899906842624, FQ 4360591588697965 1125899906842624))];
+     [(0%nat, (FQ 1300077228592327 562949953421312, FQ 5814122118263953 2251799813685248));
+      (1%nat, (FQ 3900231685776981 1125899906842624, FQ 4360591588697965 1125899906842624))]].
+Example C16_prev_ex_shrink :
+  normalize_chunks_prev ex_shrink_oracle 64 8 1 [AAuto; AAuto] [12; 12] [[4; 4; 4]; [6; 6]]
+    = POk [[2; 2; 2; 2; 2; 2]; [3; 3; 3; 3]] /\
+  (exists cs st0, prev_start 8 1 [AAuto; AAuto] [12; 12] [[4; 4; 4]; [6; 6]] = Some (true, cs, st0) /\
+                  reduce_fuel_bound cs (ls_axes st0) = 81) /\
+  prev_sane ex_shrink_oracle 81 8 1 [AAuto; AAuto] [12; 12] [[4; 4; 4]; [6; 6]] = true /\
+  prev_acc 5 4 ex_shrink_oracle 64 8 1 [AAuto; AAuto] [12; 12] [[4; 4; 4]; [6; 6]] = true /\
+  prev_acc 1 1 ex_shrink_oracle 64 8 1 [AAuto; AAuto] [12; 12] [[4; 4; 4]; [6; 6]] = true.
+Proof. vm_compute. repeat split; try reflexivity. eexists _, _. split; reflexivity. Qed.
+
+(* growing case: normalize_chunks(('auto','auto'), (100,100), limit=600, dtype='u1',
+   previous_chunks=((10,)*10,(50,50))) keeps the previous chunks (10 x 50 = 500 bytes) *)
+Definition ex_grow_oracle : nat -> nat -> fval * fval :=
+  orc_of_table
+    [[(0%nat, (FQ 3083403882353351 281474976710656, FQ 6894700683028857 562949953421312));
+      (1%nat, (FQ 3854254852941689 70368744177664, FQ 1077296981723259 17592186044416))]].
+Example C16_prev_ex_grow :
+  normalize_chunks_prev ex_grow_oracle 3 600 1 [AAuto; AAuto] [100; 100] [[10;10;10;10;10;10;10;10;10;10]; [50; 50]]
+    = POk [[10;10;10;10;10;10;10;10;10;10]; [50; 50]] /\
+  prev_acc 5 4 ex_grow_oracle 3 600 1 [AAuto; AAuto] [100; 100] [[10;10;10;10;10;10;10;10;10;10]; [50; 50]] = true.
+Proof. vm_compute. split; reflexivity. Qed.
+
+(* the exact multipliers of the two passes of C16_prev_ex_shrink: 8/(4 x 12/2) = 16/48, then 8/(2 x 3) = 8/6 *)
+Example C16_prev_ex_mults :
+  prev_mults ex_shrink_oracle 64 8 1 [AAuto; AAuto] [12; 12] [[4; 4; 4]; [6; 6]] = [FQ 16 48; FQ 8 6].
+Proof. vm_compute. reflexivity. Qed.
+
+(* an int previous chunk (h5py / zarr `.chunks`) is expanded: previous_chunks=(7, 4) on shape (20, 10) *)
+Example C16_prev_ex_conv : conv_prev [20; 10] [[7]; [4]] = Ok [[7; 7; 6]; [4; 4; 2]].
+Proof. vm_compute. reflexivity. Qed.
+
+Print Assumptions C16_prev_valid_layout.
+Print Assumptions C16_prev_auto_axes_positive.
+Print Assumptions C16_prev_fixed_axes_untouched.
+Print Assumptions C16_prev_no_auto_ignores_previous.
+Print Assumptions C16_prev_limit.
+Print Assumptions C16_prev_limit_zero_size_previous_chunks_refuted.
+Print Assumptions C16_prev_terminates.
+Print Assumptions C16_prev_terminates_growing.
+Print Assumptions C16_prev_nan_never_exits.
+Print Assumptions C16_prev_negative_entry_never_returns_refuted.
+Print Assumptions C16_prev_safe_inputs_multiplier_positive.
